@@ -162,6 +162,85 @@ def F13b():
     return rep, f"initiate(None, settings) for 'abc', 'AAAA': {out}"
 
 
+
+
+def F4g():
+    """two requests in one read, the first exceeds keep_alive_max_requests (GOAWAY sent, h2 state
+    CLOSED) while shutdown begins: reset_stream for the second raises ProtocolError out of the
+    connection handler"""
+    cfg = quiet_config()
+    cfg.keep_alive_max_requests = 0
+    hh = {}
+
+    async def app(scope, receive, send):
+        await hh["h"].ctx.terminated.set()  # shutdown begins while request 1 is being set up
+        await send({"type": "http.response.start", "status": 200, "headers": []})
+        await send({"type": "http.response.body", "body": b"hi"})
+
+    async def sc(h):
+        hh["h"] = h
+        orig = h.proto.task_group.spawn_app
+
+        async def spawn_app(app_, config, scope, send_):
+            r = await orig(app_, config, scope, send_)
+            await asyncio.sleep(0)  # let the application start
+            await asyncio.sleep(0)
+            return r
+        h.proto.task_group.spawn_app = spawn_app
+        h.client.send_headers(1, GET, end_stream=True)
+        h.client.send_headers(3, GET, end_stream=True)
+        await h.flush()
+        return True
+    h = Harness(app, cfg)
+    try:
+        asyncio.run(asyncio.wait_for(h.run(sc), 5))
+        exc = None
+    except BaseException as e:
+        exc = e
+    return ("ProtocolError" in _names(exc)), f"exception escaping handle(): {_names(exc)}"
+
+
+def F4f():
+    """client resets stream 1 and opens stream 3 (h2 forgets 1), the application of stream 1 keeps
+    sending (its buffer is force-closed and removed), the client sends PRIORITY for stream 1
+    (re-inserted in the priority tree), the application sends again: stream 1 is unblocked in the
+    tree without a send buffer and the send task dies with KeyError"""
+    state = {"n": 0}
+
+    async def app(scope, receive, send):
+        await send({"type": "http.response.start", "status": 200, "headers": []})
+        if scope["path"] != "/one":
+            await send({"type": "http.response.body", "body": b"ok"})
+            return
+        state["g1"], state["g2"] = asyncio.Event(), asyncio.Event()
+        await state["g1"].wait()
+        await send({"type": "http.response.body", "body": b"a" * 10, "more_body": True})
+        state["n"] = 1
+        await state["g2"].wait()
+        await send({"type": "http.response.body", "body": b"b" * 10, "more_body": True})
+        state["n"] = 2
+
+    async def sc(h):
+        one = [(b":method", b"GET"), (b":scheme", b"http"), (b":authority", b"x"), (b":path", b"/one")]
+        h.client.send_headers(1, one, end_stream=True)
+        await h.flush()
+        h.client.reset_stream(1)
+        await h.flush()
+        h.client.send_headers(3, GET, end_stream=True)
+        await h.flush()
+        state["g1"].set()
+        await h.flush()
+        h.client.prioritize(1, weight=10)
+        await h.flush()
+        state["g2"].set()
+        for _ in range(100):
+            await asyncio.sleep(0)
+        await asyncio.sleep(0.1)
+        return [type(e).__name__ for e in h.events]
+    h, r, exc = run_scenario(app, sc, timeout=4)
+    return ("KeyError" in _names(exc)), f"exception in the connection's task group: {_names(exc)}; app progress {state['n']}"
+
+
 SCENARIOS = {k: v for k, v in globals().items() if k.startswith("F") and callable(v)}
 
 if __name__ == "__main__":
